@@ -28,6 +28,9 @@ class SSeq:
         return self._d[concretize(i)]
 
     def __contains__(self, x):
+        if isinstance(x, (bytes, bytearray, str, SSeq)):          # sub-sequence test, as bytes/str do
+            sub = [ord(c) for c in x] if isinstance(x, str) else list(x)
+            return self._find_sub(sub) >= 0 if sub else True
         return any(_b(e == x) for e in self._d)
 
     def symbolic(self):
@@ -220,23 +223,16 @@ class SStr(SSeq):
     def __format__(self, spec): return "<symbolic str>"   # reaches only messages of exceptions and logs
     def __repr__(self): return f"SStr(len={len(self._d)})"
 
-    def strip(self, chars=None):
-        if chars is not None:
-            raise EngineLimit("strip(chars)")
+    def _sstrip(self, chars, left, right):
+        ws = SWS if chars is None else tuple(ord(c) for c in chars)
         d = list(self._d)
-        while d and _in(d[0], SWS): d.pop(0)
-        while d and _in(d[-1], SWS): d.pop()
+        while left and d and _in(d[0], ws): d.pop(0)
+        while right and d and _in(d[-1], ws): d.pop()
         return SStr._mk(d)
 
-    def lstrip(self, chars=None):
-        d = list(self._d)
-        while d and _in(d[0], SWS): d.pop(0)
-        return SStr._mk(d)
-
-    def rstrip(self, chars=None):
-        d = list(self._d)
-        while d and _in(d[-1], SWS): d.pop()
-        return SStr._mk(d)
+    def strip(self, chars=None): return self._sstrip(chars, True, True)
+    def lstrip(self, chars=None): return self._sstrip(chars, True, False)
+    def rstrip(self, chars=None): return self._sstrip(chars, False, True)
 
     def splitlines(self, keepends=False):
         out, cur, i, d = [], [], 0, self._d
@@ -261,16 +257,113 @@ class SStr(SSeq):
         return self._find_sub(sub, start, end)
 
     def split(self, sep=None, maxsplit=-1):
-        if sep is None or len(sep) != 1 or maxsplit != -1:
-            raise EngineLimit("split variant")
-        out, cur = [], []
-        for c in self._d:
-            if _b(c == ord(sep)):
-                out.append(SStr._mk(cur)); cur = []
+        if sep is None:
+            out, cur, n = [], [], 0
+            d = list(self._d)
+            i = 0
+            while i < len(d):
+                if _in(d[i], SWS):
+                    if cur:
+                        out.append(SStr._mk(cur)); cur = []; n += 1
+                else:
+                    if maxsplit >= 0 and n >= maxsplit and not cur:
+                        rest = d[i:]
+                        while rest and _in(rest[-1], SWS):
+                            rest.pop()
+                        out.append(SStr._mk(rest)); return out
+                    cur.append(d[i])
+                i += 1
+            if cur:
+                out.append(SStr._mk(cur))
+            return out
+        sp = [ord(ch) for ch in sep] if isinstance(sep, str) else list(sep._d)
+        if not sp:
+            raise ValueError("empty separator")
+        out, start, i, n, d, m = [], 0, 0, 0, self._d, len(sp)
+        while i + m <= len(d) and (maxsplit < 0 or n < maxsplit):
+            if all(_b(d[i + k] == sp[k]) for k in range(m)):
+                out.append(SStr._mk(d[start:i])); i += m; start = i; n += 1
             else:
-                cur.append(c)
-        out.append(SStr._mk(cur))
+                i += 1
+        out.append(SStr._mk(d[start:]))
         return out
+
+    def partition(self, sep):
+        sp = [ord(ch) for ch in sep] if isinstance(sep, str) else list(sep._d)
+        i = self._find_sub(sp)
+        if i < 0:
+            return (SStr._mk(list(self._d)), "", "")
+        return (SStr._mk(self._d[:i]), SStr._mk(sp), SStr._mk(self._d[i + len(sp):]))
+
+    def rpartition(self, sep):
+        sp = [ord(ch) for ch in sep] if isinstance(sep, str) else list(sep._d)
+        last = -1
+        for i in range(len(self._d) - len(sp), -1, -1):
+            if all(_b(self._d[i + k] == sp[k]) for k in range(len(sp))):
+                last = i
+                break
+        if last < 0:
+            return ("", "", SStr._mk(list(self._d)))
+        return (SStr._mk(self._d[:last]), SStr._mk(sp), SStr._mk(self._d[last + len(sp):]))
+
+    def replace(self, old, new, count=-1):
+        o = [ord(ch) for ch in old] if isinstance(old, str) else list(old._d)
+        nw = [ord(ch) for ch in new] if isinstance(new, str) else list(new._d)
+        if not o:
+            raise EngineLimit("replace of the empty string")
+        out, i, d, n = [], 0, self._d, 0
+        while i < len(d):
+            if i + len(o) <= len(d) and (count < 0 or n < count) and all(_b(d[i + k] == o[k]) for k in range(len(o))):
+                out += nw; i += len(o); n += 1
+            else:
+                out.append(d[i]); i += 1
+        return SStr._mk(out)
+
+    def _all(self, pred):
+        return len(self._d) > 0 and all(pred(c) for c in self._d)
+
+    def isdigit(self): return self._all(lambda c: _b((c >= 48) & (c <= 57)))
+    isdecimal = isnumeric = isdigit
+    def isalpha(self): return self._all(lambda c: _b(((c >= 65) & (c <= 90)) | ((c >= 97) & (c <= 122))))
+    def isalnum(self): return self._all(lambda c: _b(((c >= 48) & (c <= 57)) | ((c >= 65) & (c <= 90)) | ((c >= 97) & (c <= 122))))
+    def isspace(self): return self._all(lambda c: _in(c, SWS))
+    def isupper(self): return any(_b((c >= 65) & (c <= 90)) for c in self._d) and not any(_b((c >= 97) & (c <= 122)) for c in self._d)
+    def islower(self): return any(_b((c >= 97) & (c <= 122)) for c in self._d) and not any(_b((c >= 65) & (c <= 90)) for c in self._d)
+    def isprintable(self): return all(_b((c >= 32) & (c <= 126)) for c in self._d)
+
+    def count(self, sub, *a):
+        sp = [ord(ch) for ch in sub] if isinstance(sub, str) else list(sub._d)
+        n, i = 0, 0
+        while i + len(sp) <= len(self._d):
+            if all(_b(self._d[i + k] == sp[k]) for k in range(len(sp))):
+                n += 1; i += max(1, len(sp))
+            else:
+                i += 1
+        return n
+
+    def join(self, items):
+        out, first = [], True
+        for it in items:
+            if not first:
+                out += list(self._d)
+            first = False
+            out += list(it._d) if isinstance(it, SStr) else [ord(ch) for ch in it]
+        return SStr._mk(out)
+
+    def zfill(self, width):
+        d = list(self._d)
+        return SStr._mk([48] * max(0, width - len(d)) + d)
+
+    def rfind(self, sub, *a):
+        sp = [ord(ch) for ch in sub] if isinstance(sub, str) else list(sub._d)
+        for i in range(len(self._d) - len(sp), -1, -1):
+            if all(_b(self._d[i + k] == sp[k]) for k in range(len(sp))):
+                return i
+        return -1
+
+    def casefold(self): return self.lower()
+    def title(self): raise EngineLimit("str.title")
+    def __mod__(self, o): raise EngineLimit("%-formatting of a symbolic string")
 
     def lower(self):
         out = []
@@ -322,6 +415,8 @@ def _digit_val(c, base):
 def sym_int(x=0, base=10):
     if isinstance(x, SReal):
         return x.__trunc__()
+    if isinstance(x, SDec):
+        return SReal(x.as_real()).__trunc__()
     if isinstance(x, SInt):
         return x
     if isinstance(x, SBytes):
@@ -421,3 +516,17 @@ def fstr(*parts):
     for p in parts:
         out.extend(sym_str_of(p))
     return SStr._mk(out)
+
+
+def sym_str(x=""):
+    """str(): objects whose (rewritten) __str__ yields a symbolic string are passed through; symbolic ints are rendered digit by digit"""
+    if isinstance(x, SStr):
+        return x
+    if isinstance(x, SInt):
+        return SStr._mk(sym_str_of(x))
+    if isinstance(x, (SBytes, SReal, SDec)):
+        raise EngineLimit("str() of a symbolic " + type(x).__name__)
+    f = getattr(type(x), "__str__", None)
+    if f is not None and f is not object.__str__ and not isinstance(x, (str, int, float, bytes, bytearray, type(None), bool, tuple, list, dict)):
+        return f(x)
+    return str(x)
